@@ -558,3 +558,71 @@ def diag_of(e):
         return None
     iv = strip(i)
     return exprs.text_key(kids(bb)[0]), ki, (iv['referencedDecl']['name'] if iv.get('kind') == 'DeclRefExpr' else None)
+
+
+# ---------------------------------------------------------------------------------------
+# magnitude consistency (C12): a value compared with fabs(x) as a running maximum holds magnitudes only
+
+def magnitude_rule(chk, prog, funcs, control=None):
+    R = chk.rule('G.magnitude', 'a variable that is compared with fabs(.) (pivot search by magnitude) is only ever assigned fabs(.) values or '
+                 'non-negative constants: a signed initial value makes a negative entry compare smaller than a zero entry')
+
+    def scan(f, report):
+        hits = 0
+        for n in walk(f.body):
+            if not (n.get('kind') == 'BinaryOperator' and n.get('opcode') in ('>', '>=', '<', '<=')):
+                continue
+            a, b = (strip(x) for x in kids(n))
+            for mag, var in ((a, b), (b, a)):
+                if mag.get('kind') == 'CallExpr' and callee_name(mag) in ('fabs', 'fabsf', 'fabsl') and var.get('kind') == 'DeclRefExpr' \
+                        and var['referencedDecl'].get('kind') == 'VarDecl':
+                    vid = var['referencedDecl']['id']
+                    hits += 1
+                    bad = []
+                    for x in walk(f.body):
+                        rhs = None
+                        if is_assign(x) and x.get('opcode') == '=' and fe.ref_id(kids(x)[0]) == vid:
+                            rhs = kids(x)[1]
+                        if x.get('kind') == 'VarDecl' and x.get('id') == vid and kids(x):
+                            rhs = kids(x)[-1]
+                        if rhs is None:
+                            continue
+                        r = strip(rhs)
+                        lv = literal_value(r)
+                        if r.get('kind') == 'CallExpr' and callee_name(r) in ('fabs', 'fabsf', 'fabsl', 'sqrt'):
+                            continue
+                        if lv is not None and lv >= 0:
+                            continue
+                        bad.append((x, f.unit.text(rhs)[:50]))
+                    report(f, n, var['referencedDecl']['name'], bad)
+        return hits
+    state = {'control_hit': False}
+
+    def rep_real(f, n, vname, bad):
+        desc = '%s %s: `%s`' % (f.unit.where(n), f.name, f.unit.text(n)[:60])
+        if bad:
+            chk.instance(R, desc + ': %s is also assigned `%s`' % (vname, bad[0][1]), 'refuted')
+            chk.violation(Finding('G.magnitude', rel(f.file), f.name, 'var:' + vname, f.unit.where(bad[0][0]),
+                                  '%s: `%s` is compared with a magnitude (fabs) but assigned the signed value `%s`: a negative entry then '
+                                  'loses against a zero entry in the pivot search' % (f.name, vname, bad[0][1])))
+        else:
+            chk.instance(R, desc + ': %s holds magnitudes only' % vname)
+
+    def rep_control(f, n, vname, bad):
+        if bad:
+            state['control_hit'] = True
+    for unit, names in funcs.items():
+        for name in names:
+            f = prog.funcs.get(name)
+            if f is not None:
+                scan(f, rep_real)
+    if control:
+        from .program import Program
+        cu = fe.load_units([], {'control_magnitude.c': control})
+        cp = Program(cu)
+        for f in cp.all_funcs():
+            scan(f, rep_control)
+        if state['control_hit']:
+            chk.instance(R, 'positive control controls/magnitude.c is flagged')
+        else:
+            chk.broke('rule G.magnitude did not flag its positive control controls/magnitude.c')
